@@ -138,9 +138,22 @@ func (o *childOut) flush() {
 	o.rec.Note("done", true)
 }
 
+// tailFile returns the last n bytes of a file without reading all of it.
+func tailFile(path string, n int64) string {
+	f, err := os.Open(path)
+	if err != nil {
+		return ""
+	}
+	defer f.Close()
+	if st, err := f.Stat(); err == nil && st.Size() > n {
+		_, _ = f.Seek(-n, io.SeekEnd)
+	}
+	b, _ := io.ReadAll(io.LimitReader(f, n))
+	return string(b)
+}
+
 func recHasDone(path string) bool {
-	b, err := os.ReadFile(path)
-	return err == nil && strings.Contains(string(b), `"t":"done"`)
+	return strings.Contains(tailFile(path, 4096), `"t":"done"`)
 }
 
 // ---------------------------------------------------------------------------
@@ -206,7 +219,9 @@ func main() {
 	vlib.Parallel(len(parts), 0, func(i int) {
 		p := parts[i]
 		pj, _ := json.Marshal(p)
-		env := []string{"VERIF_C04_PART=" + string(pj), fmt.Sprintf("VERIF_SEED=%d", c.Seed), "VERIF_TIER=" + c.Tier}
+		// the first data race ends the child (exit 66): a decoder that shares state
+		// between goroutines would otherwise produce gigabytes of race reports
+		env := []string{"VERIF_C04_PART=" + string(pj), fmt.Sprintf("VERIF_SEED=%d", c.Seed), "VERIF_TIER=" + c.Tier, "GORACE=halt_on_error=1"}
 		timeout := 10 * time.Minute
 		if c.Thorough() {
 			timeout = 40 * time.Minute
@@ -235,11 +250,11 @@ func main() {
 			}
 		}
 		absorb(notes)
-		out := vlib.Tail(res.OutPath, 1<<20)
+		out := tailFile(res.OutPath, 1<<20)
 		if strings.Contains(out, "WARNING: DATA RACE") {
 			addClass(classNote{Key: "C04|race|" + p.Kind, Member: p.String(), Canonical: true,
 				What:    "the race detector reported a data race while decoder instances were used from several goroutines",
-				Witness: map[string]any{"part": p, "report": vlib.Tail(res.OutPath, 6000)}})
+				Witness: map[string]any{"part": p, "report": tailFile(res.OutPath, 6000)}})
 		}
 		if res.TimedOut {
 			c.Inconclusive(fmt.Sprintf("part %s: watchdog fired after %v", p, timeout))
@@ -252,18 +267,22 @@ func main() {
 		// process (log.Fatal, os.Exit, fatal runtime error). Re-run the part
 		// with the current input written to disk before every call.
 		res2 := vlib.RunChild(scratch, timeout, append(env, "VERIF_C04_SLOW=1"))
+		absorb(c.AbsorbFile(res2.RecPath)) // the first run wrote no counters (they are flushed at the end), only class notes
 		if recHasDone(res2.RecPath) {
-			c.Inconclusive(fmt.Sprintf("part %s: child died (exit %d) but the slow re-run completed: %s", p, res.ExitCode, vlib.Tail(res.OutPath, 800)))
+			if res.ExitCode == 66 && strings.Contains(out, "WARNING: DATA RACE") {
+				return // ended by the race detector (reported above); the single-goroutine re-run covered the part
+			}
+			c.Inconclusive(fmt.Sprintf("part %s: child died (exit %d) but the slow re-run completed: %s", p, res.ExitCode, tailFile(res.OutPath, 800)))
 			return
 		}
 		cur, _ := os.ReadFile(res2.Dir + "/current-input.txt")
 		if len(cur) == 0 {
-			c.Inconclusive(fmt.Sprintf("part %s: child died before its first input (exit %d): %s", p, res2.ExitCode, vlib.Tail(res2.OutPath, 800)))
+			c.Inconclusive(fmt.Sprintf("part %s: child died before its first input (exit %d): %s", p, res2.ExitCode, tailFile(res2.OutPath, 800)))
 			return
 		}
 		addClass(classNote{Key: "C04|fault|process-killed|" + p.Kind, Member: strings.TrimSpace(string(cur)), Canonical: false,
 			What:    "decoding this input terminated the process (fatal error / exit inside the code under test), exit code " + strconv.Itoa(res2.ExitCode),
-			Witness: map[string]any{"part": p, "input": strings.TrimSpace(string(cur)), "output_tail": vlib.Tail(res2.OutPath, 3000)}})
+			Witness: map[string]any{"part": p, "input": strings.TrimSpace(string(cur)), "output_tail": tailFile(res2.OutPath, 3000)}})
 	})
 
 	// one violation per class; fingerprint = hash of the members seen on the
